@@ -38,7 +38,7 @@ class C13(Check):
     block = 25
     run_timeout_s = 120.0
     real = ["SpatiallyAdaptivBase.continue_adaptive_refinement (stop rules)", "ErrorCalculatorSingleDimVolumeGuided", "ErrorCalculatorExtendSplit",
-            "ErrorCalculatorSurplusCell", "Integration.get_global_error_estimate", "StandardCombi.get_total_num_points", "Function cache",
+            "ErrorCalculatorSurplusCell", "Integration.get_global_error_estimate", "UncertaintyQuantification on GlobalTrapezoidalGridWeighted (a tenth of the runs)", "StandardCombi.get_total_num_points", "Function cache",
             "all three adaptive strategies with their refinement containers"]
     stub = ["integrand values (SimFunction.eval: keyed hash; counts distinct points itself)", "clocks (SimClock)"]
     rule = ("schedule = strategy (dimension-wise / extend-split / cell) with the real error estimator, hash-valued scalar or vector integrand, "
@@ -46,7 +46,7 @@ class C13(Check):
             "ordering of which limit bites first occurs, including limits met at the first evaluation. Observers count evaluate/refine calls "
             "and record the result and the stub's own distinct-point count at every evaluation. A state is the refinement structure; "
             "distinct_nontrivial counts distinct structures at the stop of a run")
-    expected_probes = ["continued_with_new_limits", "error_equals_tolerance_at_stop", "points_equal_minimum_at_stop", "stop_by_tolerance", "stop_by_max", "stop_at_first_evaluation", "min_evaluations_delayed_stop", "zero_reference"]
+    expected_probes = ["continued_with_new_limits", "error_equals_tolerance_at_stop", "points_equal_minimum_at_stop", "stop_by_tolerance", "stop_by_max", "stop_at_first_evaluation", "min_evaluations_delayed_stop", "zero_reference", "uq_operation"]
     assumptions = ["the library's documented error norm (mean-normalised p-norm of the component-wise relative deviation) is taken as the definition",
                    "runs that do not stop within the evaluation cap are excluded, not judged (every configuration carries a finite maximum)"]
     excluded_configs = ["reference vectors with some but not all components zero (relative error undefined)",
@@ -60,8 +60,14 @@ class C13(Check):
 
     def gen(self, rk, tier, idx):
         r = stream(rk, "cfg")
-        strategy = r.choice(["dimension_wise"] * 4 + ["extend_split"] * 3 + ["cell"] * 2)
-        if strategy == "dimension_wise":
+        strategy = r.choice(["dimension_wise"] * 4 + ["extend_split"] * 3 + ["cell"] * 2 + ["dimension_wise_uq"])
+        if strategy == "dimension_wise_uq":
+            # another operation with a reference solution under the same driver: uncertainty quantification (first and second
+            # moments of a three-component model on the weighted grid)
+            from engines import uq_sim as UQ
+            cfg = UQ.C15().gen(rk, tier, idx)["config"]
+            cfg.update(max_intervals=10 ** 6, norm=r.choice([1, 2, "inf"]))
+        elif strategy == "dimension_wise":
             cfg = DS.gen_cfg(r, tier, dims=(1, 2, 2, 2, 3, 3))
             cfg["max_intervals"] = 10 ** 6
         elif strategy == "extend_split":
@@ -84,7 +90,9 @@ class C13(Check):
         # surplus computation before they are ever counted - noted in DESIGN.md 9.2 as an observation outside the quantifier)
         # interpolation-error history arrays are part of the returned tuple when evaluation points are given
         cfg["evaluation_points"] = r.randint(2, 5) if (strategy == "dimension_wise" and cfg["boundary"] and r.random() < 0.25) else 0
-        n = cfg["nnoise"]
+        if strategy == "dimension_wise_uq":
+            cfg["recalc"] = None
+        n = cfg["nnoise"] if strategy != "dimension_wise_uq" else 6
         cfg["reference"] = [0.0] * n if r.random() < 0.2 else [r.choice([0.5, -0.3, 2.0, 0.05]) for _ in range(n)]
         tol = r.choice([0.0, 0.05, 0.3, 1.0, 3.0, 50.0])
         mn = r.choice([1, 1, 1, 20, 60, 150])
@@ -106,6 +114,8 @@ class C13(Check):
     def simplify(self, s):
         st = s["config"]["strategy"]
         gen = DS.simplify_cfg(s) if st == "dimension_wise" else (ES.simplify_cfg(s) if st == "extend_split" else [])
+        if st == "dimension_wise_uq":
+            gen = []
         for c in gen:
             c["config"]["estimator"] = "real"
             if len(c["config"]["reference"]) != c["config"]["nnoise"]:
@@ -124,7 +134,10 @@ class C13(Check):
         lim = sched["ops"][0][1]
         st = cfg["strategy"]
         rec = Recorder()
-        cls = {"dimension_wise": DS.DimwiseSim, "extend_split": ES.ExtendSplitSim, "cell": ES.CellSim}[st]
+        from engines import uq_sim as UQ
+        cls = {"dimension_wise": DS.DimwiseSim, "extend_split": ES.ExtendSplitSim, "cell": ES.CellSim, "dimension_wise_uq": UQ.UQSim}[st]
+        if st == "dimension_wise_uq":
+            ctx.probe("uq_operation")
         if lim.get("exact"):
             lim = dict(lim)
             ex = lim.pop("exact")
